@@ -382,6 +382,8 @@ class asyncio_run_payload:
 
     raises = {"BaseException": lambda c, self, payload, exc: c.And(ev_kind(c, 0, "run_coroutine_threadsafe"), Event.e_a(c.event_at(0)) == self.asyncio_loop.t,
                                                                    _passes_through(c, payload.t, 2, exc=exc))}
+    # the one outcome of asyncio's hand-over in which the caller does NOT get the very exception object (see known_findings.json)
+    known = {"raises": ("C10-asyncio-recreates-timeouterror", ("decision", "concurrent-future-recreates-exception", 1))}
 
 
 TrioR2 = TObj(RUN + "trio_runner:TrioRunner", asyncio_loop=ALoop, _logger=PyLogger, _stopped=TEvent, _ready=TAny(), _trio_token=TOpt(TRef()), _submit_tasks=TOpt(TRef()))
@@ -1276,7 +1278,7 @@ class meta_stop:
     }
 
 
-@contract(RUN + "meta_runner:MetaRunner._aclose_runners#body", props=["C02"], body_key=RUN + "meta_runner:MetaRunner._aclose_runners")
+@contract(RUN + "meta_runner:MetaRunner._aclose_runners#body", props=["C02", "C01", "C12"], body_key=RUN + "meta_runner:MetaRunner._aclose_runners")
 class aclose_runners:
     """EVERY runner is closed (not only the failed one), THEN all runner tasks are awaited until they are done
     (return_exceptions: their failures do not cut the wait short), and only then the runner map is emptied"""
